@@ -604,3 +604,5 @@
 ; length bounds recorded in a refinement object (0 / MaxInt when it records none)
 (define-fun rfn_len_lo ((w Any)) Int (ite ((_ is box<*cty.refinementCollection>) w) (cty.refinementCollection.minLen (rcoll_at (unbox<*cty.refinementCollection> w))) 0))
 (define-fun rfn_len_hi ((w Any)) Int (ite ((_ is box<*cty.refinementCollection>) w) (cty.refinementCollection.maxLen (rcoll_at (unbox<*cty.refinementCollection> w))) 9223372036854775807))
+; element j of a slice of types
+(define-fun ty_at ((s Slice) (j Int)) cty.Type (select (select F.Arr<cty.Type> (Slice.ptr s)) (+ (Slice.off s) j)))
